@@ -489,6 +489,32 @@ theorem forward_fold_perm {rs₁ rs₂ : List Checkpoint} (hp : rs₁.Perm rs₂
     rw [forward_assoc, forward_comm y x, ← forward_assoc]
   | trans _ _ ih₁ ih₂ => rw [ih₁, ih₂]
 
+/-- `SyncClientSeq` (server side, after a push): the acknowledged client sequence is the maximum of the stored one
+    and the pushed one – it never moves backwards, whatever sequence number a (crafted or resent) pack carries -/
+theorem syncClientSeq_eq_max (c : Checkpoint) (cs : Nat) :
+    c.syncClientSeq cs = ⟨c.serverSeq, max c.clientSeq cs⟩ := by
+  unfold Checkpoint.syncClientSeq
+  split
+  · rename_i h; rw [Nat.max_eq_right (Nat.le_of_lt h)]
+  · rename_i h; rw [Nat.max_eq_left (by omega)]
+
+theorem syncClientSeq_monotone (c : Checkpoint) (cs : Nat) :
+    c.clientSeq ≤ (c.syncClientSeq cs).clientSeq ∧ cs ≤ (c.syncClientSeq cs).clientSeq ∧
+    (c.syncClientSeq cs).serverSeq = c.serverSeq := by
+  rw [syncClientSeq_eq_max]; exact ⟨Nat.le_max_left _ _, Nat.le_max_right _ _, rfl⟩
+
+/-- a resent pack (same sequence number again) leaves the acknowledged checkpoint alone -/
+theorem syncClientSeq_idem (c : Checkpoint) (cs : Nat) : (c.syncClientSeq cs).syncClientSeq cs = c.syncClientSeq cs := by
+  simp only [syncClientSeq_eq_max, Nat.max_assoc, Nat.max_self]
+
+/-- `NextServerSeq` replaces the server sequence and never touches the client sequence -/
+theorem nextServerSeq_spec (c : Checkpoint) (s : Int) :
+    (c.nextServerSeq s).serverSeq = s ∧ (c.nextServerSeq s).clientSeq = c.clientSeq := by
+  unfold Checkpoint.nextServerSeq
+  split
+  · rename_i h; exact ⟨h, rfl⟩
+  · exact ⟨rfl, rfl⟩
+
 example : (Checkpoint.mk 3 7).forward ⟨5, 2⟩ = ⟨5, 7⟩ := by decide
 example : [Checkpoint.mk 5 2, ⟨4, 9⟩, ⟨5, 2⟩].foldl Checkpoint.forward ⟨3, 7⟩ = ⟨5, 9⟩ := by decide
 
